@@ -176,6 +176,8 @@ fn main() {
     std::panic::set_hook(Box::new(|_| {}));
     let path = std::env::args().nth(1).expect("script");
     let text = std::fs::read_to_string(path).unwrap();
+    let rt = tokio::runtime::Builder::new_current_thread().build().unwrap();
+    let _guard = rt.enter();
     let all: Vec<&str> = text
         .lines()
         .filter(|l| !l.trim().is_empty() && !l.starts_with('#'))
@@ -303,6 +305,22 @@ fn run_script(script: &[&str]) {
                             handles.insert(geti(&kv, "h"), e);
                         }
                         None => ret = "miss".into(),
+                    }
+                }
+                "gof" => {
+                    // get_or_fetch on a resident key: the hit path of the fetch API (no task is spawned)
+                    let k = geti(&kv, "k");
+                    if c.unwrap().contains(&k) {
+                        let f = c.unwrap().get_or_fetch(&k, || async { Err::<Val, anyhow::Error>(anyhow::anyhow!("unreachable")) });
+                        match f.try_unwrap() {
+                            Ok(e) => {
+                                ret = format!("hit:{}", e.value().v);
+                                handles.insert(geti(&kv, "h"), e);
+                            }
+                            Err(_) => panic!("get_or_fetch missed a resident key"),
+                        }
+                    } else {
+                        ret = "miss".into();
                     }
                 }
                 "touch" => {
